@@ -71,8 +71,15 @@ def generate(rng, tier):
         edit = {"op": "write", "path": f, "c": gen.unique_content(rng, 7), "fault": "content_edit", "tag": "content"}
     if edit:
         ops.append(edit)
-        ops.append(scen.cmd("create", "@R", *gen.fmt_args(fmts)))
-        ops.append(scen.cmd(*co))
+        fmts2 = fmts
+        if rng.random() < 0.4:
+            # re-seal with formats that are (partly) new for the history: directory hashes in the new formats
+            extra = [f for f in observe.FORMATS if f not in fmts]
+            if extra:
+                fmts2 = sorted(set(rng.sample(extra, rng.randint(1, min(2, len(extra)))) + (fmts[:1] if rng.random() < 0.5 else [])))
+        ops.append(scen.cmd("create", "@R", *gen.fmt_args(fmts2)))
+        co2 = ["verify", "@R", "-dh", "-co"] + (["-h", rng.choice(fmts2)] if rng.random() < 0.6 else [])
+        ops.append(scen.cmd(*co2))
     return {"world": env, "ops": ops}
 
 
